@@ -157,6 +157,14 @@ pub fn race_lookups() -> Vec<OpSpec> {
         // roots with NO_SYMLINKS (paths without links, with '..')
         o(Op::Resolve { path: s("a/b/c/d/../../../../etc/passwd"), nofollow: false }).nosym(true),
         o(Op::OpenSubpath { path: s("a/b/../b/c/../../../file"), flags: libc::O_RDONLY }).nosym(true),
+        // one-shot opens whose flag set may select a different route through the library than the
+        // plain lookup + reopen (non-following, directory-only, path-only), with the last step a '..'
+        // or a leaf: the final step needs the same re-verification as every other one
+        o(Op::OpenSubpath { path: s("a/b/c/.."), flags: libc::O_RDONLY | libc::O_NOFOLLOW }),
+        o(Op::OpenSubpath { path: s("a/b/c/d/.."), flags: libc::O_RDONLY | libc::O_NOFOLLOW | libc::O_DIRECTORY }).c(),
+        o(Op::OpenSubpath { path: s("a/b/c/../.."), flags: libc::O_PATH | libc::O_NOFOLLOW }),
+        o(Op::OpenSubpath { path: s("a/b/c/d/leaf"), flags: libc::O_RDONLY | libc::O_NOFOLLOW | libc::O_NONBLOCK }),
+        o(Op::OpenSubpath { path: s("a/b/c/d/../d/.."), flags: libc::O_RDONLY | libc::O_DIRECTORY }),
     ]
 }
 
